@@ -2,13 +2,12 @@
    The specification (pcmd, pm_expand, move-to-front history with the PMarc
    starting order, the pm1 and pm2 serialisers with every table form, wf_pm1,
    wf_pm2, the zero-extension rule) is S_Pm.v.  Proved: the decoders' history list IS the
-   specification's move-to-front list (history_list_is_mtf), and the pm2 round
-   trip for every single-segment stream of literals with ANY well-formed code
-   table (pm2_roundtrip_partial: no copy commands, fewer than 1024 bytes, so no
-   table re-read).  The full round trips (copies, segments, pm1,
-   pm1_zero_extension) are decided by the direct oracle of the check (C output =
+   specification's move-to-front list (history_list_is_mtf) and the -pm2- round
+   trip in full (pm2_roundtrip; pm2_roundtrip_partial is the earlier literal-only
+   special case).  The -pm1- round trip and pm1_zero_extension are decided by
+   the direct oracle of the check (C output =
    extracted spec expansion on streams produced by the extracted serialisers). *)
-From Lhasa Require Import Base ListN DecBase Generated Decoder PmaCommon Pm2 S_Larc S_Pm P_Decoder P_PmaCommon P_Pm2 P_Pm2Rt P_Pm2Lens.
+From Lhasa Require Import Base ListN DecBase Generated Decoder PmaCommon Pm2 S_Larc S_Pm P_Decoder P_PmaCommon P_Pm2 P_Pm2Rt P_Pm2Lens P_Pm2Full.
 Local Open Scope N_scope.
 
 (* The starting history holds all 256 byte values, each once, in the PMarc order
@@ -46,5 +45,22 @@ Theorem pm2_roundtrip_partial : forall f ct off bs tail s0 ks,
     concat os = pm2_denote d.
 Proof. exact pm2_literals_roundtrip. Qed.
 
+(* pm2 in full: EVERY well-formed stream description -- literals, copies of every
+   length / distance class incl. overlapping ones and ones reading the space fill,
+   any number of segments with the table re-reads at 1024, 2048, 4096, 8192 and
+   every 4096 after (also in the middle of a copy), kept and re-read tables,
+   single-code and general code tables, every offset-table form --, any trailing
+   bytes, any read schedule covering the output *)
+Theorem pm2_roundtrip : forall d tail s0 ks,
+  wf_pm2 d = true -> Forall (fun b => b < 256) tail -> pm2_init = Ok s0 ->
+  nlen (pm2_denote d) <= sum_N ks -> sum_N ks < 2 ^ 62 ->
+  exists os d',
+    run_reads (pm2_read src_cb) pm2_max_read pm2_block_size
+      (lha_decoder_new s0 {| src_data := pm2_serialise d ++ tail; src_chunks := [] |} (nlen (pm2_denote d))) ks
+      = Ok (os, d') /\
+    concat os = pm2_denote d.
+Proof. exact P_Pm2Full.pm2_roundtrip. Qed.
+
 Print Assumptions history_list_is_mtf.
 Print Assumptions pm2_roundtrip_partial.
+Print Assumptions pm2_roundtrip.
